@@ -43,7 +43,7 @@ SCHEMAS = {
 }
 SEGS = ["a", "b", "c", "d", "x", "metadorx", "xmetador_y", "meta", "A", "0d", "~t", "Mb"]
 RES_SEGS = ["metador_x", "metador_meta_", "metador_meta_d", "metador_container", "metador_"]
-VALUES = ["i:0", "i:1", "i:7", "i:42"]
+VALUES = ["i:0", "i:1", "i:2", "i:3", "i:4", "i:5", "i:7", "i:42", "i:99"]
 ATTR_KEYS = ["k", "m"]
 
 
@@ -69,13 +69,23 @@ def op_paths(op) -> List[str]:
     k = op[0]
     if k in ("mkgrp", "reqgrp", "del", "get", "mkds", "reqds", "set", "aset", "adel"):
         return [op[1], op[2]]
-    if k in ("move", "copy"):
+    if k in ("move", "copy", "copyn"):
         return [op[1], op[2], op[3]]
-    if k == "copyinto":
+    if k in ("copyinto", "copyinton"):
         return [op[1], op[2], op[3]] + list(op[4])
     if k in ("attach", "detach") or k in COMPOUND:
         return [op[1]]
     raise ValueError(k)
+
+
+def to_model_op(op) -> list:
+    """Wire form for the model: a node-object source is the lookup of its path by the receiver
+    (same guard, same existence check, same order), so copyn/copyinton are copy/copyinto there."""
+    if op[0] == "copyn":
+        return ["copy"] + list(op[1:])
+    if op[0] == "copyinton":
+        return ["copyinto"] + list(op[1:])
+    return op
 
 
 def is_user_data_op(op) -> bool:
@@ -194,9 +204,18 @@ def _reserved_path(rng, mir: Mirror) -> str:
 def gen_history(rng, nops: int, p_reserved: float = 0.12) -> List[list]:
     mir = Mirror()
     ops: List[list] = []
+    if rng.random() < 0.5:
+        # same-named children with different values at several depths
+        nm, g1, g2 = rng.choice(SEGS), rng.choice(["g", "b", "Mb"]), rng.choice(["h", "c"])
+        for j, t in enumerate([[nm], [g1, nm], [g1, g2, nm]]):
+            ops.append(["set", "/", "/".join(t), VALUES[(j + rng.randrange(3) * 3) % len(VALUES)]])
+            mir.mk(t, "D")
+        ops = ops[rng.randrange(2):]
     while len(ops) < nops:
         groups = mir.groups()
-        cwd = list(rng.choice(groups)) if rng.random() < 0.6 else []
+        # the receiver of every operation: the root or an existing group of any depth
+        deep = [g for g in groups if g]
+        cwd = list(rng.choice(deep)) if deep and rng.random() < 0.65 else []
         if rng.random() < 0.03:
             cwd = [rng.choice(SEGS), "zz"]                    # missing group
         elif rng.random() < 0.03 and mir.datasets():
@@ -243,6 +262,9 @@ def gen_history(rng, nops: int, p_reserved: float = 0.12) -> List[list]:
             mir.mk(t, "G")
         elif r < 0.30:
             t = fresh()
+            if mir.datasets() and rng.random() < 0.45:
+                # a name that already exists elsewhere
+                t = list(rng.choice(groups)) + [rng.choice(mir.datasets())[-1]]
             kind = rng.choice(["set", "set", "mkds", "reqds"])
             op = [kind, cwds, _spell(rng, cwd, t), rng.choice(VALUES)]
             mir.mk(t, "D")
@@ -265,25 +287,16 @@ def gen_history(rng, nops: int, p_reserved: float = 0.12) -> List[list]:
             if d[:len(s)] == s:
                 continue
             wm = rng.random() < 0.4
-            if cwd and d[:len(cwd)] != cwd:
-                # h5py/HDF5 checks an absolute copy destination relative to the calling group
-                # (plain-tree quirk, not modelled): absolute destinations only from the root
-                cwd, cwds = [], "/"
-            op = ["copy", cwds, _spell(rng, cwd, s), "/".join(d[len(cwd):]) if cwd else _spell(rng, cwd, d), wm]
+            op = [rng.choice(["copy", "copy", "copyn"]), cwds, _spell(rng, cwd, s), _spell(rng, cwd, d), wm]
             mir.cp(s, d, with_meta=not wm)
         elif r < 0.70:
-            # not into the root group: the wrapper builds "//name", which IH5 does not resolve
-            nonroot = [g for g in groups if g]
-            if not nonroot:
-                continue
-            s, dg = some_existing(), list(rng.choice(nonroot))
+            s, dg = some_existing(), list(rng.choice(groups))
             name = [rng.choice(SEGS)] if rng.random() < 0.7 else []
             d = dg + (name if name else s[-1:])
             if d[:len(s)] == s:
                 continue
             wm = rng.random() < 0.4
-            cwd, cwds = [], "/"      # the wrapper passes an absolute destination (see above)
-            op = ["copyinto", cwds, _spell(rng, cwd, s), absname(dg), name, wm]
+            op = [rng.choice(["copyinto", "copyinto", "copyinton"]), cwds, _spell(rng, cwd, s), absname(dg), name, wm]
             mir.cp(s, d, with_meta=not wm)
         elif r < 0.76:
             t = some_existing() if rng.random() < 0.8 else []
@@ -308,10 +321,11 @@ def gen_history(rng, nops: int, p_reserved: float = 0.12) -> List[list]:
             op = ["detach", absname(list(t)), sc]
         # reserved probe inside the history: replace one path argument
         if rng.random() < p_reserved:
-            idx = {"copyinto": [1, 2, 3, 4], "move": [1, 2, 3], "copy": [1, 2, 3],
+            idx = {"copyinto": [1, 2, 3, 4], "copyinton": [1, 2, 3, 4], "move": [1, 2, 3], "copy": [1, 2, 3],
+                   "copyn": [1, 2, 3],
                    "attach": [1], "detach": [1]}.get(op[0], [1, 2])
             i = rng.choice(idx)
-            if op[0] == "copyinto" and i == 4:
+            if op[0] in ("copyinto", "copyinton") and i == 4:
                 op[4] = [rng.choice(RES_SEGS + ["x/metador_y"])]
             else:
                 op[i] = _reserved_path(rng, mir)
@@ -402,19 +416,37 @@ def _apply_group(g, lookup, op, container: bool):
         del g[op[2]]
     elif k == "move":
         g.move(op[2], op[3])
-    elif k == "copy":
-        if container:
-            g.copy(op[2], op[3], without_meta=bool(op[4]))
+    elif k in ("copy", "copyn", "copyinto", "copyinton") and not container:
+        # reference semantics with full paths from the root (plain HDF5 checks an absolute copy
+        # destination relative to the calling group, which is not what the operation means)
+        if not hasattr(g, "keys") or _is_ds(g):
+            raise TypeError("receiver is not a group")
+        cw = norm(op[1])
+        if k in ("copyinto", "copyinton"):
+            dg = lookup(op[3])
+            if not hasattr(dg, "keys") or _is_ds(dg):
+                raise TypeError("destination is not a group")
+        s_abs = resolve(cw, op[2])
+        if not s_abs:
+            raise KeyError("root as source")
+        root = lookup("/")
+        root[absname(s_abs)]
+        if k in ("copy", "copyn"):
+            d_abs = resolve(cw, op[3])
         else:
-            g.copy(op[2], op[3])
-    elif k == "copyinto":
+            d_abs = norm(op[3]) + (norm(op[4][0]) if op[4] else s_abs[-1:])
+        root.copy(absname(s_abs), absname(d_abs))
+    elif k in ("copy", "copyn"):
+        src = g[op[2]] if k == "copyn" else op[2]
+        g.copy(src, op[3], without_meta=bool(op[4]))
+    elif k in ("copyinto", "copyinton"):
         dg = lookup(op[3])
         if not hasattr(dg, "keys") or _is_ds(dg):
             raise TypeError("destination is not a group")
         kw = {"name": op[4][0]} if op[4] else {}
-        if container:
-            kw["without_meta"] = bool(op[5])
-        g.copy(op[2], dg, **kw)
+        kw["without_meta"] = bool(op[5])
+        src = g[op[2]] if k == "copyinton" else op[2]
+        g.copy(src, dg, **kw)
     elif k == "aset":
         g[op[2]].attrs[op[3]] = dec(op[4])
     elif k == "adel":
@@ -553,7 +585,7 @@ def limit(seconds: float, exc: type):
 
 
 OP_METHOD = {"mkgrp": "create_group", "reqgrp": "require_group", "mkds": "create_dataset",
-             "reqds": "require_dataset", "set": "__setitem__", "del": "__delitem__", "copyinto": "copy",
+             "reqds": "require_dataset", "set": "__setitem__", "del": "__delitem__", "copyinto": "copy", "copyn": "copy", "copyinton": "copy",
              "get": "__getitem__", "attach": "__getitem__", "detach": "__getitem__", "aset": "__getitem__",
              "adel": "__getitem__"}
 
@@ -1048,7 +1080,7 @@ def run_model_expanding(hists: List[List[list]]):
             ops = hists[h]
             while pos[h] < len(ops) and ops[pos[h]][0] not in COMPOUND:
                 spans[h].append((len(exp[h]), len(exp[h]) + 1, None))
-                exp[h].append(ops[pos[h]])
+                exp[h].append(to_model_op(ops[pos[h]]))
                 pos[h] += 1
                 dirty[h] = True
             if pos[h] < len(ops):
@@ -1135,7 +1167,7 @@ def run(ctx: vlib.Ctx):
     hists = [gen_history(ctx.rng, ctx.rng.randint(6, nops)) for _ in range(nh)]
     # fixed pattern histories: all reserved forms in every position of every operation
     hists += pattern_histories() + compound_histories()
-    nprobe = {"h5": ctx.budget(4, 20), "ih5": ctx.budget(2, 8)}
+    nprobe = {"h5": ctx.budget(4, 20), "ih5": ctx.budget(1, 8)}
     tasks = []
     for hi, ops in enumerate(hists):
         for drv in ("h5", "ih5"):
